@@ -60,7 +60,10 @@ type nbtDecEv struct {
 	Out []int `json:"out,omitempty"`
 }
 
-var nbtTargets = []string{"any", "any-plain", "map", "raw", "dynbt", "snbt", "rawstring", "skip", "field", "raw-unmarshal", "any-strict"}
+// nbtUsedDoc is what "-used" destinations decoded before: a compound with a list, a string and an int array
+var nbtUsedDoc = []byte{10, 0, 0, 9, 0, 1, 'l', 1, 0, 0, 0, 3, 7, 8, 9, 8, 0, 1, 's', 0, 5, 's', 't', 'a', 'l', 'e', 11, 0, 1, 'i', 0, 0, 0, 1, 0, 0, 0, 42, 0}
+
+var nbtTargets = []string{"any", "any-plain", "map", "raw", "dynbt", "snbt", "rawstring", "skip", "field", "raw-unmarshal", "any-strict", "raw-used", "dynbt-used", "snbt-used"}
 
 type skipAll struct {
 	Zzz int32 `nbt:"zzz-not-present"`
@@ -127,11 +130,14 @@ func nbtDecode(fmtName string, input []byte, target string, class string) (ev nb
 	}
 	var name string
 	var err error
+	// "-used": the destination decoded another document before (a carrier variable kept across packets / reloads)
+	used := strings.HasSuffix(target, "-used")
+	kind := strings.TrimSuffix(target, "-used")
 	done := make(chan struct{})
 	go func() {
 		defer close(done)
 		ev.Panicked, ev.Msg = catch(func() {
-			switch target {
+			switch kind {
 			case "any", "any-plain":
 				var v any
 				name, err = mk().Decode(&v)
@@ -180,6 +186,9 @@ func nbtDecode(fmtName string, input []byte, target string, class string) (ev nb
 				name, err = mk().Decode(&v)
 			case "raw":
 				var v nbt.RawMessage
+				if used {
+					nbt.Unmarshal(nbtUsedDoc, &v)
+				}
 				name, err = mk().Decode(&v)
 				if err == nil {
 					ev.K = "carrier"
@@ -193,6 +202,9 @@ func nbtDecode(fmtName string, input []byte, target string, class string) (ev nb
 				}
 			case "dynbt":
 				var v dynbt.Value
+				if used {
+					nbt.Unmarshal(nbtUsedDoc, &v)
+				}
 				name, err = mk().Decode(&v)
 				ev.K = "carrier"
 				if err == nil {
@@ -205,7 +217,19 @@ func nbtDecode(fmtName string, input []byte, target string, class string) (ev nb
 				}
 			case "snbt":
 				var v nbt.StringifiedMessage
+				if used {
+					nbt.Unmarshal(nbtUsedDoc, &v)
+				}
 				name, err = mk().Decode(&v)
+				if err == nil && used {
+					// the text of a used carrier must be the text a fresh one gets
+					var fresh nbt.StringifiedMessage
+					d2 := nbt.NewDecoder(bytes.NewReader(input))
+					d2.NetworkFormat(fmtName == "network")
+					if _, e2 := d2.Decode(&fresh); e2 != nil || fresh != v {
+						err = errors.New("a used StringifiedMessage holds another text than a fresh one after decoding the same document")
+					}
+				}
 			case "rawstring":
 				var v nbt.RawMessage
 				name, err = mk().Decode(&v)
@@ -893,7 +917,7 @@ func runC02(env *vk.Env) {
 	tr = &vk.Trace{}
 	for i, v := range vecs {
 		nbtFlush(env, &tr, "B carriers re-emit byte for byte", &part, false)
-		for _, tg := range []string{"raw", "dynbt"} {
+		for _, tg := range []string{"raw", "dynbt", "raw-used", "dynbt-used"} {
 			tr.Add(nbtDecode(v.Fmt, append(bytesOf(v.Bytes), 0x0a, 0x00), tg, "universe"))
 		}
 		if i%4 == 0 && v.Tree.T != 0 {
@@ -907,7 +931,7 @@ func runC02(env *vk.Env) {
 		tree := randTree(rng, 1+rng.Intn(4), 0)
 		fmtName := []string{"file", "network"}[rng.Intn(2)]
 		doc := nbtDocBytes(fmtName, bytesOf(randKey(rng)), tree)
-		for _, tg := range []string{"raw", "dynbt"} {
+		for _, tg := range []string{"raw", "dynbt", "raw-used", "dynbt-used"} {
 			tr.Add(nbtDecode(fmtName, doc, tg, "random"))
 		}
 		allowDupKeys = false
